@@ -158,6 +158,14 @@ class ChildrenList(list):
             make its parent a different node.
 
         '''
+        ancestor = self._node_reference
+        while ancestor is not None:
+            if ancestor is item:
+                raise GenerationError(
+                    f"Item '{item.coloured_name(False)}' can't be added as "
+                    f"child of '{self._node_reference.coloured_name(False)}' "
+                    f"because it is that node or one of its ancestors.")
+            ancestor = ancestor.parent
         if item.parent and not item.has_constructor_parent:
             raise GenerationError(
                 f"Item '{item.coloured_name(False)}' can't be added as child "
